@@ -8,6 +8,7 @@ def quick8(tier): return list(_mx().QUICK_CFGS)
 def all48_thorough(tier): return _mx().all_cfgs() if tier == "thorough" else list(_mx().QUICK_CFGS)
 def san_quick(tier): return list(_mx().SAN_CFGS_ALL if tier == "thorough" else _mx().SAN_CFGS_QUICK)
 def none(tier): return []
+def probes2(tier): return ['probe-gcc-O2-c++17-std','probe-clang-O0-c++20-std']
 def cfgs4(tier): return ['gcc-O0-c++17-abacus','gcc-O2-c++17-std','clang-O1-c++17-std','clang-O3-c++17-abacus'] if tier=='quick' else list(_mx().QUICK_CFGS)
 
 COMMON_ASSUMPTIONS = [
@@ -68,4 +69,11 @@ PROPS = {
  "C14": dict(cfgs=quick8,
    scope=lambda t: "hypot on every pair of P^2 (S-shaped operands with |.| < 2^47) and on threshold windows x P' in both orders, under both square-root back-ends; symmetry on every pair",
    assumptions=COMMON_ASSUMPTIONS),
+ "C19": dict(cfgs=quick8, probes=probes2,
+   scope=lambda t: "all 1,234 table entries; the table index of ALL 2^32 angles for both angle functions; angle values for all 2^32 angles (2 configurations quick / all thorough); sqrt_aprox on a dense prefix ([1,2^26) quick, the COMPLETE domain [1,2^37) thorough); atan_index_aprox on a dense interval, every table break point and S(w,r)",
+   assumptions=COMMON_ASSUMPTIONS + ["the index probe replaces only the two non-inline table accessors declared in math.h; the inline index computation is the working tree's",
+      "atan_index_aprox for |x| in [2^26, 2^47) is covered on S(w,r) and break-point windows only"]),
+ "C20": dict(cfgs=quick8,
+   scope=lambda t: "angle_to_radians for every value of the 8/16-bit types, every value of int32/uint32 (2 configurations quick / all thorough), S-shaped 64-bit values; sin/cos/tan_angle for every integer d in [-360,360] x 10 argument types",
+   assumptions=COMMON_ASSUMPTIONS + ["d = +-90, +-270 are true poles of tan and are excluded from the tan_angle accuracy clause"]),
 }
